@@ -285,7 +285,7 @@ def run(tier, seed, acc):
     run_lattice(MOD, cfgs, acc, shards_per_worker=8)
     c = acc.counts
     frac = c.get("small_eps_ok", 0) / max(1, c.get("small_eps_total", 1))
-    if frac < 0.6:
+    if not acc.viol and (frac < 0.6):
         raise HarnessError(f"C02 non-vacuity floor missed: only {frac:.2f} of round trips with "
                            f"|eps| <= 0.2 completed ({c})")
     cov = {
